@@ -6,6 +6,7 @@ package os
 import (
 	iofs "io/fs"
 	real "os"
+	"time"
 
 	"verif/simrt"
 )
@@ -89,3 +90,106 @@ func Setenv(key, value string) error {
 	return nil
 }
 func Unsetenv(key string) error { delete(simrt.S.Cfg.Env, key); return nil }
+
+// --- less common calls, so that small edits to the library keep compiling -----
+
+func Chtimes(name string, atime, mtime time.Time) error {
+	s := simrt.S
+	s.Pre("chtimes", 0, name)
+	n, err := s.FS.Lookup(s.FS.Cwd, name)
+	if err != nil {
+		return err
+	}
+	n.Mtime = mtime.UnixNano()
+	s.FS.JournalNote("chtimes", name, n.Ino)
+	return nil
+}
+
+func Chmod(name string, mode FileMode) error {
+	s := simrt.S
+	s.Pre("chmod", 0, name)
+	n, err := s.FS.Lookup(s.FS.Cwd, name)
+	if err != nil {
+		return err
+	}
+	n.Mode = uint32(mode.Perm())
+	return nil
+}
+
+func Chown(name string, uid, gid int) error { _, err := Stat(name); return err }
+
+func Truncate(name string, size int64) error {
+	s := simrt.S
+	s.Pre("truncate", 0, name)
+	n, err := s.FS.Lookup(s.FS.Cwd, name)
+	if err != nil {
+		return err
+	}
+	d := make([]byte, size)
+	copy(d, n.Data)
+	n.Data = d
+	s.FS.JournalNote("truncate", name, n.Ino)
+	return nil
+}
+
+func SameFile(a, b FileInfo) bool {
+	x, ok1 := a.Sys().(*simrt.Inode)
+	y, ok2 := b.Sys().(*simrt.Inode)
+	return ok1 && ok2 && x == y
+}
+
+func Symlink(oldname, newname string) error {
+	simrt.S.HarnessFail("symlinks are not modelled")
+	return nil
+}
+
+func Link(oldname, newname string) error {
+	simrt.S.HarnessFail("hard links are not modelled")
+	return nil
+}
+
+type dirEntry struct{ fi FileInfo }
+
+func (d dirEntry) Name() string            { return d.fi.Name() }
+func (d dirEntry) IsDir() bool             { return d.fi.IsDir() }
+func (d dirEntry) Type() FileMode          { return d.fi.Mode().Type() }
+func (d dirEntry) Info() (FileInfo, error) { return d.fi, nil }
+
+func ReadDir(name string) ([]DirEntry, error) {
+	fis, err := simrt.S.FS.GoReadDir(name)
+	if err != nil {
+		return nil, err
+	}
+	out := make([]DirEntry, len(fis))
+	for i, fi := range fis {
+		out[i] = dirEntry{fi}
+	}
+	return out, nil
+}
+
+func MkdirTemp(dir, pattern string) (string, error) {
+	f, err := simrt.S.FS.GoTempFile(dir, pattern)
+	if err != nil {
+		return "", err
+	}
+	name := f.Name()
+	if err := simrt.S.FS.GoRemove(name); err != nil {
+		return "", err
+	}
+	return name, simrt.S.FS.GoMkdir(name)
+}
+
+func UserHomeDir() (string, error) { return "/home/sim", nil }
+func Executable() (string, error)  { return "/work/workflow", nil }
+func Environ() []string {
+	var e []string
+	for k, v := range simrt.S.Cfg.Env {
+		e = append(e, k+"="+v)
+	}
+	return e
+}
+func Getuid() int                  { return 1000 }
+func Getgid() int                  { return 1000 }
+func IsPathSeparator(c uint8) bool { return c == '/' }
+
+const DevNull = "/dev/null"
